@@ -647,6 +647,61 @@ func (ts *taintState) guardedBy(b *ssa.BasicBlock, t *taintV) (bool, string) {
 		if ts.condBounds(ifi.Cond, t, 0, truth, known) {
 			return true, ts.c.Pos(ifi.Cond.Pos())
 		}
+		// the comparison may sit in a predicate helper (`if !indexInRange(int(idx), len(tab)) { return }`) or in a
+		// checking helper that returns an error: the helper's parameters carry the taint of the arguments
+		if known {
+			cond, tr := ifi.Cond, truth
+			for {
+				u, ok := cond.(*ssa.UnOp)
+				if !ok || u.Op != token.NOT {
+					break
+				}
+				cond, tr = u.X, !tr
+			}
+			// withArgs: judge a comparison inside helper h with the taint of this call's arguments on its parameters
+			withArgs := func(call *ssa.Call, judge func() bool) bool {
+				h := call.Call.StaticCallee()
+				if h == nil || len(h.Params) != len(call.Call.Args) {
+					return false
+				}
+				saved := map[*ssa.Parameter]*taintV{}
+				for i, p := range h.Params {
+					saved[p] = ts.param[p]
+					ts.param[p] = ts.get(call.Call.Args[i])
+				}
+				res := judge()
+				for p, old := range saved {
+					if old == nil {
+						delete(ts.param, p)
+					} else {
+						ts.param[p] = old
+					}
+				}
+				return res
+			}
+			if call, ok := cond.(*ssa.Call); ok {
+				if cmp, neg, _ := predicateComparison(call); cmp != nil {
+					if neg {
+						tr = !tr
+					}
+					if withArgs(call, func() bool { return ts.condBounds(cmp, t, 0, tr, true) }) {
+						return true, ts.c.Pos(ifi.Cond.Pos())
+					}
+				}
+			}
+			if bo, ok := cond.(*ssa.BinOp); ok && (bo.Op == token.NEQ || bo.Op == token.EQL) && bo.X.Type().String() == "error" {
+				if k, isC := bo.Y.(*ssa.Const); isC && k.Value == nil && (bo.Op == token.EQL) == tr {
+					if call, ok := bo.X.(*ssa.Call); ok {
+						for _, fact := range errorHelperFacts(call) {
+							fact := fact
+							if withArgs(call, func() bool { return ts.condBounds(fact.cond, t, 0, fact.truth, true) }) {
+								return true, ts.c.Pos(ifi.Cond.Pos())
+							}
+						}
+					}
+				}
+			}
+		}
 	}
 	return false, ""
 }
